@@ -208,6 +208,29 @@ struct arith
         ++k;
       }
       ok = ok && k == n && ps2 == ps && (n == 0 || ty::str(*first) == ty::str(m.get()));
+      // the public members increment / dereference / equal called directly, copy assignment, member and free swap
+      if (n >= 2)
+      {
+        auto a = range.begin();
+        auto b = range.begin();
+        b.increment();
+        std::string const pa = ty::str(a.dereference()), pb = ty::str(b.dereference());
+        ok = ok && pa == ty::str(m.get()) && a.equal(range.begin()) && !a.equal(b) && b.equal(++range.begin());
+        a.swap(b);
+        ok = ok && ty::str(*a) == pb && ty::str(*b) == pa && a != b;
+        swap(a, b); // fcppt::iterator::swap by argument-dependent lookup
+        ok = ok && ty::str(*a) == pa && ty::str(*b) == pb;
+        a.swap(a);
+        ok = ok && ty::str(*a) == pa;
+        auto c = range.end();
+        c = b; // copy assignment
+        ok = ok && c == b && ty::str(*c) == pb;
+        auto &cr = c;
+        c = cr; // self-assignment
+        ok = ok && c == b;
+        ++c;
+        ok = ok && (n == 2 ? c == end : ty::str(*c) != pb) && ty::str(*b) == pb;
+      }
       if (!ok)
         return r + " iterator-protocol-mismatch";
     }
@@ -354,6 +377,45 @@ struct gr
       rs += ut::str(element.pos()) + ":" + std::to_string(element.value());
       ++n;
     }
+    // pos_ref_iterator: the same elements through (*it++), copies stay, direct members, swap, copy assignment
+    {
+      auto it = range.begin();
+      auto const end = range.end();
+      bool ok = (it == range.begin()) && ((n == 0) == (it == end));
+      std::size_t k = 0;
+      std::string rs2;
+      while (it != end && k < n + 1)
+      {
+        auto const saved = it;
+        auto const old = it++;
+        auto const e = *old;
+        auto const e2 = saved.dereference();
+        ok = ok && old == saved && it != saved && !it.equal(saved) && &e.value() == &e2.value() && e.pos() == e2.pos();
+        if (k)
+          rs2 += '|';
+        rs2 += ut::str(e.pos()) + ":" + std::to_string(e.value());
+        ++k;
+      }
+      ok = ok && k == n && (n == 0 ? rs2.empty() : rs2 == rs);
+      if (n >= 2)
+      {
+        auto a = range.begin();
+        auto b = range.begin();
+        b.increment();
+        auto const *const va = &(*a).value();
+        auto const *const vb = &(*b).value();
+        ok = ok && va != vb;
+        a.swap(b);
+        ok = ok && &(*a).value() == vb && &(*b).value() == va;
+        swap(a, b);
+        ok = ok && &(*a).value() == va && &(*b).value() == vb;
+        auto c = range.end();
+        c = a;
+        ok = ok && c == a && &(*c).value() == va;
+      }
+      if (!ok)
+        return "ref-iterator-protocol-mismatch";
+    }
     return n ? rs : "-";
   }
 
@@ -397,6 +459,7 @@ struct gr
     // init is called for the positions that are not positions of the old grid, and only for those
     if (init_calls != volume(nd) - common(d, nd))
       return "resize-called-init-wrong-number-of-times";
+    init_calls = 0;
     // the rvalue overload moves the cells; for long the result must be identical
     G const r2{grid::resize(mk(d, k), ut::to_dim(nd), init)};
     if (!(r.size() == r2.size()) || cells(r) != cells(r2))
@@ -414,6 +477,22 @@ struct gr
       return "tracked-resize-differs";
     if (moved_count(src) != common(d, nd)) // NOLINT(bugprone-use-after-move): only the cells were moved
       return "rvalue-resize-moved-wrong-cells";
+    // aliasing: the new size is the grid's own size() (a reference into the argument), and the result is assigned
+    // back to the source (g = resize(g, ...), g = resize(std::move(g), ...))
+    {
+      G a{mk(d, k)};
+      G const same{grid::resize(a, a.size(), init)};
+      if (!(same == a))
+        return "resize-to-own-size-changed-the-grid";
+      G b{mk(d, k)};
+      b = grid::resize(b, ut::to_dim(nd), init);
+      G c{mk(d, k)};
+      c = grid::resize(std::move(c), ut::to_dim(nd), init);
+      TG e{mkt(d, k)};
+      e = grid::resize(std::move(e), e.size(), tinit); // NOLINT(bugprone-use-after-move)
+      if (!(b == r) || !(c == r) || cells(e) != cells(mk(d, k)) || !(e.size() == a.size()))
+        return "resize-assigned-back-differs";
+    }
     return grid_str(r);
   }
 
@@ -436,6 +515,22 @@ struct gr
         ok = it != g.end() && *jt == *it * 3 - *it;
       if (!ok || it != g.end())
         return "apply-same-object-mismatch";
+      G const thrice{grid::apply([](long const x, long const y, long const z) { return static_cast<long>(x * 5 - y - z); }, g, g, g)};
+      auto it3 = g.begin();
+      bool ok3 = thrice.size() == g.size();
+      for (auto jt = thrice.begin(); ok3 && jt != thrice.end(); ++jt, ++it3)
+        ok3 = it3 != g.end() && *jt == *it3 * 3;
+      if (!ok3 || it3 != g.end())
+        return "apply-same-object-mismatch";
+      // the result assigned back to the source
+      G h{mk(d, k)};
+      h = grid::map(h, [a, b](long const x) { return static_cast<long>(a * x + b); });
+      G h2{mk(d, k)};
+      h2 = grid::map(std::move(h2), [a, b](long const x) { return static_cast<long>(a * x + b); });
+      G h3{mk(d, k)};
+      h3 = grid::apply([a, b](long const x, long const y) { return static_cast<long>(a * x + b + y - x); }, h3, h3);
+      if (!(h == r) || !(h2 == r) || !(h3 == r))
+        return "map-assigned-back-differs";
     }
     auto const tf = [a, b](tcell const c) { return static_cast<long>(a * c.v + b); }; // by value: an rvalue cell is moved from
     TG src{mkt(d, k)};
